@@ -82,6 +82,23 @@ def pair_cases(dss, rng, others=3):
     return cases
 
 
+def mutation_cases(dss, rng):
+    """compare, modify the first dataset in place, compare again (expected value from the observed rankings)"""
+    cases = []
+    for k, D in enumerate(dss):
+        U = grids.universe(D)
+        ops = [{"op": "remove_rate", "p": 1, "q": 2}]
+        if [] in D and len(D) > 1:
+            ops.append({"op": "remove_empty"})
+        if len(U) >= 2:
+            ops.append({"op": "remove_elements", "S": [U[k % len(U)]]})
+        for op in ops:
+            for P in (D, list(reversed(D)), dss[rng.randrange(len(dss))]):
+                cases.append({"a": D, "oa": _orders(D, 0), "b": P, "ob": _orders(P, 1), "naming": NAMINGS[k % 3],
+                              "ne": max(grids.universe(D) + grids.universe(P)), "ops": [op]})
+    return cases
+
+
 def _nt(rec):
     return len(rec["a"]) >= 2 or len(rec["b"]) >= 2 or any(len(b) >= 2 for r in rec["a"] + rec["b"] for b in r)
 
@@ -93,6 +110,9 @@ def stages(tier, rng, only=None):
     out.append(Stage("random", "Trace_Dataset", datarun.run_eq,
                      lambda: pair_cases([ac.random_dataset(rng, 7, 5) for _ in range(n_rand)], rng, 1), _nt,
                      datarun.init))
+    out.append(Stage("after_mutation", "Trace_Dataset", datarun.run_eq,
+                     lambda: mutation_cases(grids.datasets(3, 2) + [ac.random_dataset(rng, 6, 5) for _ in range(n_rand)],
+                                            rng), _nt, datarun.init))
     if tier == "thorough":
         out.append(Stage("grid3x3", "Trace_Dataset", datarun.run_eq, lambda: pair_cases(grids.datasets(3, 3)[::3], rng),
                          _nt, datarun.init))
